@@ -502,6 +502,20 @@ func init() {
 			}
 			return []Value{Const(64, uint64(len(s.rvStore[iv.Handle.id])))}
 		},
+		"newValue": func(s *State, fn *ssa.Function, args []Value, where string) []Value {
+			// newValue(x): x holds a value created by reflect.New after the state `old` refers to (function entry in a
+			// postcondition, start of the iteration in a loop body clause): not a value that existed before
+			iv, ok := args[0].(*IfaceV)
+			if !ok {
+				unsup("newValue of %T", args[0])
+			}
+			at, isNew := s.rvNewAt[iv.Handle.id]
+			base := 0
+			if s.oldSnap != nil {
+				base = s.oldSnap.logLen
+			}
+			return []Value{BoolConst(isNew && at >= base)}
+		},
 		"sameDynType": func(s *State, fn *ssa.Function, args []Value, where string) []Value {
 			a, ok1 := args[0].(*IfaceV)
 			b, ok2 := args[1].(*IfaceV)
@@ -771,6 +785,10 @@ func init() {
 		},
 		"reflect.New": func(s *State, fn *ssa.Function, args []Value, where string) []Value {
 			h := s.freshVar("rv.new", BV(64))
+			if s.rvNewAt == nil {
+				s.rvNewAt = map[int]int{}
+			}
+			s.rvNewAt[h.id] = len(s.log) // when the value was created (newValue: per-iteration freshness)
 			t := args[0].(*IfaceV)
 			return []Value{&OpaqueV{Kind: "reflect.Value", T: h, Aux: map[string]Value{"path": strV("ptr"), "root": h, "type": t.Handle}}}
 		},
